@@ -31,6 +31,9 @@ def _append(env_name: str, record: dict) -> None:
         return
     _state["seq"] += 1
     record = {"pid": os.getpid(), "seq": _state["seq"], **record}
+    test = os.environ.get("PYTEST_CURRENT_TEST")
+    if test:
+        record["test"] = test
     data = (json.dumps(record, default=str) + "\n").encode("utf-8", "backslashreplace")
     try:
         fd = os.open(path, os.O_WRONLY | os.O_APPEND | os.O_CREAT, 0o644)
